@@ -42,13 +42,22 @@ Definition res_eqb (m o : obs) : bool :=
                     | None => false
                     end) m.
 
-Definition check_case (db : list series) (q : query) (o : obs) : bool :=
-  res_eqb (run_query frag_match q db) o.
+Inductive qcase := CQ (q : query) | CA (op : binop) (q1 q2 : query).
 
-Fixpoint check_cases (db : list series) (cs : list (query * obs)) (idx : nat) : list nat :=
+Definition run_case (db : list series) (c : qcase) : obs :=
+  match c with
+  | CQ q => run_query frag_match q db
+  | CA op q1 q2 => run_arith frag_match op q1 q2 db
+  end.
+
+Definition check_case (db : list series) (q : qcase) (o : obs) : bool :=
+  res_eqb (run_case db q) o.
+
+(* idx is an N: case numbers are dataset*10000 + stage*1000 + query *)
+Fixpoint check_cases (db : list series) (cs : list (qcase * obs)) (idx : N) : list N :=
   match cs with
   | [] => []
-  | (q, o) :: r => (if check_case db q o then [] else [idx]) ++ check_cases db r (S idx)
+  | (q, o) :: r => (if check_case db q o then [] else [idx]) ++ check_cases db r (idx + 1)
   end.
 
 Definition mk_series (n : str) (l : labels) (c : list (list pt)) : series :=
